@@ -565,6 +565,12 @@ impl<'a> serde::Serialize for Presented<'a> {
 				f();
 			}
 		}
+		if call == 0 {
+			crate::capture::HUMAN_READABLE.with(|h| {
+				let (_, de) = h.get();
+				h.set((Some(s.is_human_readable()), de));
+			});
+		}
 		let mut record_poison: Option<PoisonKind> = None;
 		if let Some(p) = ctx.poison {
 			if p.at_call == call {
